@@ -33,6 +33,7 @@ def run(repo, run, tier):
     # integrator must never take a step longer than the one it was given -- in particular on the retries of a rejected step
     from .c05 import retry_step
     retry_step(repo, run, rule_id="C03.10")
+    target_as_given(repo, run, m)
 
 
 # ------------------------------------------------------------------------------------------------
@@ -556,3 +557,34 @@ def orientation_preserves_magnitude(repo, run, m):
             run.report("C03.9", DS, st, "__fix_dt_dir computes the oriented step as `%s` instead of flipping the sign of the stored one: when the two times coincide (the run is "
                                         "exactly at the constructor's tf, or t0 == tf) the factor sign(0) = 0 makes the step zero, the step loop's `dt != 0` guard ends the run "
                                         "short of the target and later calls divide by it" % src(st.value if isinstance(st, ast.Assign) else st))
+
+
+# ------------------------------------------------------------------------------------------------
+FIXED_PRECISION = {"float", "int", "float64", "float32", "float16", "double", "single", "half"}
+
+
+def target_as_given(repo, run, m):
+    """'ends at the target to within a few rounding units' in the precision of the initial state: the target handed to integrate(t) must reach the time
+    arithmetic unchanged.  A conversion to a FIXED precision (float(t), numpy.float64(t), asarray(t, dtype='float64')) rounds a longdouble target to the
+    nearest double: the run then ends hundreds of extended-precision rounding units away from the requested time, and reports success."""
+    rid = run.rule("C03.11", "the local bound to the call's target is the parameter itself (or a conversion whose dtype is taken from the system's own arrays): "
+                             "no conversion of the target to a fixed precision (float(), numpy.float64(), dtype='float64')", floor=1)
+    for st, conv in m.tf_bindings:
+        if conv is None:
+            run.judged(rid, "`%s`: target used as given" % src(st)[:80])
+            continue
+        f = (fname(conv) or dotted(conv.func) or "").split(".")[-1]
+        fixed = f in FIXED_PRECISION
+        for k in conv.keywords:
+            if k.arg == "dtype":
+                tail = (src(k.value).strip("'\"").split(".")[-1])
+                if isinstance(k.value, ast.Constant) or tail in FIXED_PRECISION:
+                    fixed = True
+        for a in conv.args[1:]:
+            if isinstance(a, ast.Constant) and isinstance(a.value, str) and a.value in FIXED_PRECISION or src(a).split(".")[-1] in FIXED_PRECISION:
+                fixed = True
+        run.judged(rid, "`%s`: conversion %s" % (src(st)[:80], "to a fixed precision" if fixed else "with a dtype taken from the system"), ok=not fixed)
+        if fixed:
+            run.report("C03.11", DS, st, "the target of integrate(t) is converted with `%s`, a fixed precision: for a system whose state is wider than that (longdouble) the "
+                       "target is rounded (e.g. 1/3 in longdouble -> the nearest double), the run ends ~1e2..1e3 rounding units of the state's precision away from "
+                       "the requested time and still reports success; the recorded grid no longer 'ends at the target to within a few rounding units'" % src(conv)[:60])
